@@ -105,9 +105,10 @@ def sortable(value):
                 # that comparison is a consistent total pre-order: at most one family of tuples, and number keys of one exact type
                 # (int / float / bool compare by value among each other, but their type names interleave with 'bytes' and 'bool')
                 keys = [V.strip_comments(k) for k in v0]
-                if sum(1 for f in fams if isinstance(f, tuple)) > 1:
+                # (two keys are always fine: any `<` orders a pair consistently, and a stable sort leaves a tie as inserted)
+                if len(keys) > 2 and sum(1 for f in fams if isinstance(f, tuple)) > 1:
                     return False
-                if len({type(k) for k in keys if isinstance(k, (int, float))}) > 1:
+                if len(keys) > 2 and len({type(k) for k in keys if isinstance(k, (int, float))}) > 1:
                     return False
                 # the fallback compares (module, qualname) of the key types; the model knows the names of the built-in types only
                 if any(type(k) not in (int, float, bool, str, bytes, tuple, type(None), type(Ellipsis)) for k in keys):
@@ -447,6 +448,12 @@ def builtin_values_section(tier, seed):
         v = rng.choice([d, [d, 1], {'outer': d, 1: d}])
         if sortable(v):
             cases.append((v, settings_for(rng, v, 'quick', (0, 1))[::3]))
+    # ties: two tuple keys that `<` cannot order ((1, None) < (1, 'a') raises, both are tuples) keep their insertion order - a stable sort
+    for a, b in [((1, None), (1, 'a')), ((1, 'a'), (1, None)), ((0, 'x', None), (0, 'x', 2)), ((None,), ('s',)), (('k', b'b'), ('k', 'b')),
+                 ((2, None), (1, 'a')), ((1, 'a'), (0, None)), (1.5, True), (True, 0.5), (b'x', 0.5)]:
+        for v in ({a: 1, b: 2}, [{a: [1], b: 'v'}], {'outer': {a: 0, b: 0}}):
+            if sortable(v):
+                cases.append((v, [(4, 79, 71, None, 1000, 1), (4, 10, 10, None, 1000, 1), (4, 79, 71, None, 1000, 0)]))
     tot, nt, mism, fails = run_cases(cases, 'c01')
     stats = {'evaluations': tot, 'distinct_nontrivial': nt, 'small_trees': len(small), 'random_values': n_rand,
              'mismatches': len(mism),
